@@ -211,7 +211,7 @@ def body_dim_bounds(h, dup):
     cu.validate_decl = lambda d: None
     lb = h.int('lb', -32768, 32767)
     ub = h.int('ub', -32768, 32767)
-    rng = N(is_const=True, static_lbound=lb, static_ubound=ub)
+    rng = N(is_const=True, static_lbound=lb, static_ubound=ub, lbound=N(type=Type.INTEGER), ubound=N(type=Type.LONG))
     rng.loc_start = 31
     decl = N(name='arr', array_dims=[rng], type=Type.INTEGER)
     decl.loc_start = 29
@@ -248,8 +248,23 @@ def body_typed_operand(h, rule, t):
     numeric = t in 'ILSD'
     operand = N(type=T[t] if t != 'U' else udt('rec'), base_type=T[t] if t != 'U' else udt('rec'))
     operand.loc_start = 41
+    intn = N(type=Type.INTEGER, base_type=Type.INTEGER)
     if rule == 'for_var':
-        p, f, node, legal = Pass2(cu), 'process_for_block_pre', N(var=operand), numeric
+        p, f, node, legal = Pass2(cu), 'process_for_block_pre', N(var=operand, from_expr=intn, to_expr=intn, step_expr=None), numeric
+    elif rule in ('for_from', 'for_to', 'for_step'):
+        kw = dict(var=intn, from_expr=intn, to_expr=intn, step_expr=intn)
+        kw[{'for_from': 'from_expr', 'for_to': 'to_expr', 'for_step': 'step_expr'}[rule]] = operand
+        p, f, node, legal = Pass2(cu), 'process_for_block_pre', N(**kw), numeric
+    elif rule in ('dim_lbound', 'dim_ubound'):
+        cu.validate_decl = lambda d: None
+        rng = N(is_const=False, lbound=intn, ubound=intn)
+        setattr(rng, 'lbound' if rule == 'dim_lbound' else 'ubound', operand)
+        decl = N(name='arr', array_dims=[rng], type=Type.INTEGER)
+        p, f, node, legal = Pass2(cu), 'process_dim_pre', N(kind='dim', parent_routine=R['main'], var_decls=[decl]), numeric
+    elif rule == 'select_value':
+        p, f, node, legal = Pass3(cu), 'process_select_block_pre', N(value=operand, case_blocks=[]), t != 'U'
+    elif rule == 'read_target':
+        p, f, node, legal = Pass2(cu), 'process_read_pre', N(var_list=[N(type=Type.INTEGER), operand]), t != 'U'
     elif rule == 'input_target':
         p, f, node, legal = Pass2(cu), 'process_input_pre', N(var_list=[N(type=Type.INTEGER), operand]), t != 'U'
     elif rule == 'while_cond':
@@ -320,8 +335,10 @@ CONTRACTS = [
     Contract('static.typed_operand', PROPS + ['C03'], ['qbee.compiler:Pass2.process_for_block_pre', 'qbee.compiler:Pass2.process_input_pre',
                                              'qbee.compiler:Pass3.process_while_block_pre', 'qbee.compiler:Pass2.process_play_pre',
                                              'qbee.compiler:Pass2.process_screen_pre', 'qbee.compiler:Pass2.process_poke_pre',
-                                             'qbee.compiler:Pass3.process_print_pre'], body_typed_operand,
-             cases=[(r, t) for r in ('for_var', 'input_target', 'while_cond', 'if_cond', 'if_block_cond', 'loop_cond', 'play', 'screen_mode',
+                                             'qbee.compiler:Pass3.process_print_pre', 'qbee.compiler:Pass2.process_dim_pre', 'qbee.compiler:Pass3.process_select_block_pre',
+                                             'qbee.compiler:Pass2.process_read_pre'], body_typed_operand,
+             cases=[(r, t) for r in ('for_var', 'for_from', 'for_to', 'for_step', 'dim_lbound', 'dim_ubound', 'select_value', 'read_target',
+                                     'input_target', 'while_cond', 'if_cond', 'if_block_cond', 'loop_cond', 'play', 'screen_mode',
                                      'poke_address', 'print_item') for t in 'ILSD$U']),
     Contract('static.error_position', PROPS, ['qbee.exceptions:CompileError.__init__'], body_error_position,
              cases=[(a, b) for a in (True, False) for b in (True, False)]),
